@@ -29,6 +29,7 @@ def install(w):
             "_arrow_table": Opt(pa.Table),
             "_arrow_table_fetch_index": Opt(int),
             "_rowcount": Opt(int),
+            "_converter": __import__("snowflake.connector.converter", fromlist=["x"]).SnowflakeConverter,
         },
     )
 
